@@ -589,7 +589,7 @@ def handle (fn : String) (a : List Float) : Option (List Float) :=
     let (g, r) ← v6 a
     let (ls, r) ← legs 6 r
     let (L, _) ← takeN 6 r
-    let f := List.zipWith (fkRes g.a (matrixExp3 (hat g.b))) ls L
+    let f := residuals ls L g
     some (f ++ [sumAbs f])
   | "sp.raph" => do        -- L6 guess6 legs36 maxIter tolF tolA lmin -> guess6 iters exit
     let (L, r) ← takeN 6 a
